@@ -69,6 +69,10 @@ func ParseKern(src []byte) (Kern, int, error) {
 		return Kern{}, 0, fmt.Errorf("unsupported kern table version: %d", major)
 	}
 
+	// each subtable has at least a 6 bytes header: check the count before allocating
+	if L := len(src); L/6 < int(numTables) {
+		return Kern{}, 0, fmt.Errorf("reading Kern: "+"EOF: expected %d subtables, got length %d", numTables, L)
+	}
 	out := make([]KernSubtable, numTables)
 	var (
 		err    error
